@@ -3,9 +3,11 @@
    property theorems, each closed by `exact`.  The bundled Rust checker is tied to `valid_b` behaviourally (tools/props/c12.py). *)
 From VRP Require Import Base.Tac Model.Core Spec.Feasible Spec.Valid Proofs.ValidP Spec.Mutations Proofs.MutationsP.
 
-(* the verdict is the conjunction of the four rule groups *)
+(* the verdict is the conjunction of the rule groups (P, A, F, R and the second parts of F and R: compatibility, groups,
+   reachability, capacity / load in the capacity dimensions >= 1) *)
 Theorem C12_valid_b_groups : forall P S,
-  valid_b P S = [] <-> precond_viol P = [] /\ accounted_b P S = [] /\ feasible_viols P S = [] /\ replay_viol P S = [].
+  valid_b P S = [] <-> precond_viol P = [] /\ accounted_b P S = [] /\ feasible_viols P S = [] /\ replay_viol P S = []
+                       /\ xfeasible_viols P S = [] /\ xreplay_viols P S = [].
 Proof. exact valid_b_nil. Qed.
 
 (* exact restatement for the group that has a declarative twin: job presence / uniqueness / one tour / assigned xor unassigned *)
